@@ -112,7 +112,7 @@ fn ensure_constraints(ch: &mut Choices, prog: &mut Program, want: usize) {
 
 /// Inject ≥ 1 violation; returns the label of the injection class.
 pub fn inject(ch: &mut Choices, prog: &mut Program) -> String {
-    let class = ch.weighted(&[22, 10, 12, 18, 14, 12, 12]);
+    let class = ch.weighted(&[20, 9, 11, 16, 13, 11, 11, 9]);
     let e = ScalarSpec::gen_nonzero(ch);
     let neg = |s: &ScalarSpec| -> Option<ScalarSpec> {
         Some(match s {
@@ -210,6 +210,14 @@ pub fn inject(ch: &mut Choices, prog: &mut Program) -> String {
             list_mut(prog, gs[i]).push(Op::Tamper { gate: i, dl: ScalarSpec::Zero, dr: ScalarSpec::Zero, dout: e1 });
             list_mut(prog, gs[j]).push(Op::Tamper { gate: j, dl: ScalarSpec::Zero, dr: ScalarSpec::Zero, dout: e2 });
             "cancelling-gate-pair".into()
+        }
+        // a violated constraint without a constant term, spelled before its variables exist
+        7 => {
+            if crate::program::add_forward_violation(ch, prog) {
+                "forward-reference".into()
+            } else {
+                "forward-reference(n/a)".into()
+            }
         }
         // a gate error offset by a linear error of the same size
         _ => {
